@@ -160,6 +160,10 @@ class BasicServer:
             def check_auth_none(self, username):
                 return AUTH_FAILED
 
+            def check_auth_publickey(self, username, key):
+                self.log.append(("publickey", username))
+                return AUTH_SUCCESSFUL
+
             def check_channel_request(self, kind, chanid):
                 self.log.append(("open", kind))
                 return OPEN_SUCCEEDED
